@@ -50,7 +50,7 @@ func Catalogue(tier string) []*PSystem {
 		l = append(l,
 			&PSystem{name: "n2-r2-sf", N: 2, Retries: 2, Pairs: 4, SaveFail: true, QMax: 1, Del: true},
 			&PSystem{name: "n3-r1-exh", N: 3, Retries: 1, Pairs: 2, QMax: 1, Del: true},
-			&PSystem{name: "n3-r1-pre", N: 3, Retries: 1, Pairs: 2, SaveFail: true, Pre: []int{2}, QMax: 1},
+			&PSystem{name: "n3-r0-pre", N: 3, Retries: 0, Pairs: 2, SaveFail: true, Pre: []int{2}, QMax: 1, Del: true},
 		)
 	}
 	return l
